@@ -312,6 +312,19 @@ def run(ctx, repo):
         arg = kw['key'].args.args[0].arg
         good = (isinstance(a, ast.Attribute) and a.attr == 'ranking_key' and isinstance(a.value, ast.Name) and a.value.id == arg
                 and isinstance(b, ast.Attribute) and b.attr == '_old_pos')
+    if not good and not kw and not s.args and isinstance(s.func.value, ast.Name):
+        # decorate-sort-undecorate: X = [(j.ranking_key, index, j) for index, j in enumerate(...)]; X.sort()
+        for n in ast.walk(rj):
+            if isinstance(n, ast.Assign) and len(n.targets) == 1 and isinstance(n.targets[0], ast.Name) and n.targets[0].id == s.func.value.id \
+                    and isinstance(n.value, ast.ListComp) and isinstance(n.value.elt, ast.Tuple) and len(n.value.elt.elts) >= 2 \
+                    and len(n.value.generators) == 1 and not n.value.generators[0].ifs:
+                g = n.value.generators[0]
+                e0, e1 = n.value.elt.elts[0], n.value.elt.elts[1]
+                if isinstance(g.iter, ast.Call) and call_name(g.iter) == 'enumerate' and isinstance(g.target, ast.Tuple) and len(g.target.elts) == 2 \
+                        and all(isinstance(x, ast.Name) for x in g.target.elts):
+                    iv, jv = g.target.elts[0].id, g.target.elts[1].id
+                    good = (isinstance(e0, ast.Attribute) and e0.attr == 'ranking_key' and isinstance(e0.value, ast.Name) and e0.value.id == jv
+                            and isinstance(e1, ast.Name) and e1.id == iv)
     if good and 'reverse' not in kw:
         ctx.ok('R2', 'sort key is (ranking_key, previous position), ascending')
     else:
@@ -326,7 +339,18 @@ def run(ctx, repo):
     if not (isinstance(lp.iter, ast.Call) and call_name(lp.iter) == 'enumerate' and isinstance(lp.target, ast.Tuple)
             and len(lp.iter.args) == 1 and not lp.iter.keywords):
         raise AnalysisError('_rankj: numbering loop is not `for i, j in enumerate(...)`')
-    ivar, jvar = lp.target.elts[0].id, lp.target.elts[1].id
+    deco_key = set()
+    if not isinstance(lp.target.elts[0], ast.Name):
+        raise AnalysisError('_rankj: numbering loop index is not a name')
+    ivar = lp.target.elts[0].id
+    if isinstance(lp.target.elts[1], ast.Name):
+        jvar = lp.target.elts[1].id
+    elif isinstance(lp.target.elts[1], ast.Tuple) and all(isinstance(x, ast.Name) for x in lp.target.elts[1].elts) and len(lp.target.elts[1].elts) >= 2:
+        # decorate-sort-undecorate: the loop runs over (key, ..., jumper) tuples
+        jvar = lp.target.elts[1].elts[-1].id
+        deco_key = {lp.target.elts[1].elts[0].id}
+    else:
+        raise AnalysisError('_rankj: numbering loop target not recognised')
     # previous-jumper / previous-key variables: assigned from jvar / key at the end of the body
     def flat_assigns(body):
         for st in body:
@@ -349,7 +373,7 @@ def run(ctx, repo):
             place_vals.append((ast.unparse(n.value), conds, n))
     # decided as a table over the complete abstract domain the loop can see: the index (0, 1, 2 stand for first, second, later) and
     # whether the key equals the previous key (keys are touched only through ==); the stored place is evaluated on each row
-    key_vars = {t.id for t, v in flat_assigns(lp.body) if isinstance(v, ast.Attribute) and v.attr == 'ranking_key' and isinstance(t, ast.Name)}
+    key_vars = {t.id for t, v in flat_assigns(lp.body) if isinstance(v, ast.Attribute) and v.attr == 'ranking_key' and isinstance(t, ast.Name)} | deco_key
     prev_k = {t.id for t, v in flat_assigns(lp.body) if isinstance(t, ast.Name) and (
         unparse(v) in key_vars or (isinstance(v, ast.Attribute) and v.attr == 'ranking_key'))} - key_vars
     PREV = ('previous place',)
@@ -365,6 +389,11 @@ def run(ctx, repo):
                 return env['i']
             if e.id in prev_k and env['i'] == 0:
                 return None
+            if e.id in env.get('loc', {}):
+                v_ = env['loc'][e.id]
+                if isinstance(v_, _NoEval):
+                    raise v_
+                return v_
             raise _NoEval(unparse(e))
         if isinstance(e, ast.Attribute) and e.attr == '_place' and isinstance(e.value, ast.Name) and e.value.id in prev_j:
             return PREV
@@ -390,7 +419,7 @@ def run(ctx, repo):
                     t.split('.')[0] in prev_j and t.endswith('.ranking_key') for t in names)):
                 eq = env['eq']
                 return eq if isinstance(e.ops[0], ast.Eq) else not eq
-            if isinstance(e.ops[0], (ast.Is, ast.IsNot)) and names & prev_k and 'None' in names:
+            if isinstance(e.ops[0], (ast.Is, ast.IsNot)) and (names & prev_k or names & set(prev_j)) and 'None' in names:
                 isn = env['i'] == 0
                 return isn if isinstance(e.ops[0], ast.Is) else not isn
             x, y = pe(l, env), pe(r_, env)
@@ -413,6 +442,13 @@ def run(ctx, repo):
                 for t, v in zip(st.targets[0].elts, st.value.elts):
                     if isinstance(t, ast.Attribute) and t.attr == '_place':
                         out_.append(pe(v, env))
+            elif isinstance(st, ast.Assign) and len(st.targets) == 1 and isinstance(st.targets[0], ast.Name) \
+                    and st.targets[0].id not in prev_j and st.targets[0].id not in prev_k and st.targets[0].id not in key_vars:
+                # a local of the loop body (e.g. `tied = ...`): its value on this row, or the reason it has none
+                try:
+                    env.setdefault('loc', {})[st.targets[0].id] = pe(st.value, env)
+                except _NoEval as ne_:
+                    env.setdefault('loc', {})[st.targets[0].id] = ne_
     table, bad_rows = [], []
     try:
         for i_ in (0, 1, 2):
